@@ -12,7 +12,7 @@ CHECKS = [
     {
         "id": "C11",
         "technique": "Hypothesis-generated operation histories (stateful, op-list form) over a scripted socket with a history invariant; reader(socket) vs reader(file) differential",
-        "text": "Generated histories of peer sends / timeouts / OS errors / close interleaved with read(n) and readline on SocketWrapper at seven bufsizes; after every step delivered ++ buffered must equal everything recv() handed out, read sizes and readline termination must obey the contract; RTCMReader over a socket with generated segmentation must return what RTCMReader over BytesIO returns. Histories use every OSError subclass as a fault and include 96 KiB .. 2.5 MiB (thorough 9 MiB) streams through one wrapper; the same operations are also driven by a Hypothesis RuleBasedStateMachine.",
+        "text": "Generated histories of peer sends / timeouts / OS errors / close interleaved with read(n) and readline on SocketWrapper at seven bufsizes; after every step delivered ++ buffered must equal everything recv() handed out, read sizes and readline termination must obey the contract; RTCMReader over a socket with generated segmentation must return what RTCMReader over BytesIO returns. Histories use every OSError subclass as a fault and include 96 KiB .. 2.5 MiB (thorough 9 MiB) streams through one wrapper; the same operations are also driven by a Hypothesis RuleBasedStateMachine. The socket-vs-file differential also runs over chunked (plain / gzip / zlib / deflate) sockets and sockets wrapped by the caller; streams of frames free of sync bytes, cut at the reader's read boundaries with timeouts between segments, must deliver every frame that no stall falls inside, once and in order.",
         "note": "Scripted sockets stand for the kernel; real socket options are represented only by TimeoutError / OSError from recv().",
     },
     {
